@@ -304,6 +304,11 @@ class Execution:
             ok = self.backend.complete_external(oid, "SUCCEEDED", payload=payload)
         else:
             err = {"ErrorMessage": payload or f"{outcome.lower()} {oid[:6]}", "ErrorType": "ExtError"}
+            how = spec[2] if len(spec) > 2 else None
+            if how == "noerr":
+                err = None                                  # the backend reports the terminal status without any error object
+            elif how == "nomsg":
+                err = {"ErrorType": "ChainedInvoke.Timeout" if typ == "CHAINED_INVOKE" else "Callback.Timeout"}    # a type, no message
             ok = self.backend.complete_external(oid, outcome, error=err)
         if ok:
             self.env_log.append(("ext", oid, outcome, mid))
